@@ -321,7 +321,9 @@ class LoopSpec:
     determine one; `decreases(v)` optional variant (int, >= 0, strictly
     decreasing)."""
 
-    def __init__(self, inv, modifies=(), types=None, decreases=None, unroll=None, ghost=(), hints=None, have=None):
+    def __init__(self, inv, modifies=(), types=None, decreases=None, unroll=None, ghost=(), hints=None, have=None,
+                 frozen=()):
+        self.frozen = tuple(frozen)
         self.inv = inv
         self.hints = hints
         self.have = have  # have(v) -> facts about the state at the loop head; each is proved, then assumed
@@ -840,7 +842,10 @@ class Interp:
                 n += 1
                 if n > limit:
                     if spec and spec.unroll:
-                        raise core.Infeasible()  # bounded unrolling: deeper paths not explored
+                        # unwinding assertion: the loop must not be able to run longer than the bound under
+                        # the scenario's precondition (otherwise the bounded unrolling would hide paths)
+                        ctx().oblige("%s/loop/%s/unwind-%d" % (self.tag, key, limit), False, kind="unwind")
+                        raise core.Cut()
                     raise Unsupported("loop %s: concrete unrolling exceeded %d" % (key, limit))
                 try:
                     self.exec_block(s.body, env, globs)
@@ -861,6 +866,9 @@ class Interp:
         names, attrs = loop_targets(s)
         for m in spec.modifies:
             (attrs if "." in m else names).add(m)
+        for m in spec.frozen:  # syntactically assigned in the body, but only on paths the contract's rely excludes
+            names.discard(m)
+            attrs.discard(m)
         for nm in sorted(names):
             if nm in spec.types:
                 self._set_name(env, nm, spec.types[nm](c.fresh_name(nm)))
